@@ -3,6 +3,7 @@
 package pfcpiface
 
 import (
+	"fmt"
 	"math/rand"
 	"sync"
 )
@@ -203,4 +204,99 @@ func R_C07_teid() {
 		}()
 	}
 	wg.Wait()
+}
+
+// H_C07_conc: two goroutines on one F-TEID generator, every interleaving of their
+// critical sections: thread 1 allocates; thread 2 allocates and may free what
+// it got (or an identifier that was live before). The identifiers handed out
+// are non-zero, distinct from each other and from the live one, and the used
+// set ends up exactly what the operations imply.
+func H_C07_conc() {
+	g := NewFTEIDGenerator()
+	g.offset = vU32("cursor") // any cursor position, wrap-around included
+	vAssume(g.offset != 0xffffffff)
+	live, err := g.Allocate()
+	vAssert("pre-allocation", err == nil && live != 0)
+	frees := vChoose("thread2_frees", 3) // 0 nothing, 1 its own identifier, 2 the one that was live before
+	var a, b uint32
+	var ea, eb error
+	vPreemptAtLocks(3)
+	var wg sync.WaitGroup
+	wg.Add(2)
+	go func() {
+		defer wg.Done()
+		a, ea = g.Allocate()
+	}()
+	go func() {
+		defer wg.Done()
+		b, eb = g.Allocate()
+		switch frees {
+		case 1:
+			g.FreeID(b)
+		case 2:
+			g.FreeID(live)
+		}
+	}()
+	wg.Wait()
+	vJoin()
+	vAssert("allocations-succeed", ea == nil && eb == nil)
+	vAssert("identifiers-non-zero", vAnd(a != 0, b != 0))
+	if frees == 0 {
+		vAssert("concurrent-allocations-differ", a != b)
+		vAssert("new-identifiers-differ-from-the-live-one", vAnd(a != live, b != live))
+	}
+	if frees == 1 {
+		// b may be handed out again only after it was freed: a == b is possible;
+		// but neither may equal the identifier that stayed live
+		vAssert("new-identifiers-differ-from-the-live-one", vAnd(a != live, b != live))
+	}
+	if frees == 2 {
+		vAssert("concurrent-allocations-differ", a != b)
+	}
+	vAssert("identifier-in-use-is-marked", g.IsAllocated(a))
+	want := 3
+	if frees != 0 {
+		want = 2
+		if frees == 1 && a == b {
+			want = 1 // cannot happen: a == b implies b was freed before a was taken, leaving live + a
+		}
+	}
+	if frees == 1 && a == b {
+		vAssert("used-set-size", len(g.usedMap) == 2)
+	} else {
+		vAssert("used-set-size", len(g.usedMap) == want)
+	}
+	vCover("conc")
+}
+
+// R_C07_conc: native counterpart.
+func R_C07_conc() {
+	for round := 0; round < 2000; round++ {
+		g := NewFTEIDGenerator()
+		g.offset = 0xfffffffc
+		const workers = 8
+		var start, wg sync.WaitGroup
+		start.Add(1)
+		got := make([]uint32, workers)
+		for k := 0; k < workers; k++ {
+			wg.Add(1)
+			go func(k int) {
+				defer wg.Done()
+				start.Wait()
+				got[k], _ = g.Allocate()
+			}(k)
+		}
+		start.Done()
+		wg.Wait()
+		seen := map[uint32]bool{}
+		for _, id := range got {
+			if id == 0 || seen[id] {
+				vStressFail(fmt.Sprintf("round %d: identifiers %v", round, got))
+			}
+			seen[id] = true
+		}
+		if len(g.usedMap) != workers {
+			vStressFail(fmt.Sprintf("round %d: %d identifiers in use after %d allocations", round, len(g.usedMap), workers))
+		}
+	}
 }
